@@ -458,6 +458,11 @@ def _check_halving(repo, r4):
                     if lo_[0] == "call" and lo_[1] == ("method", X, "get_lower_bits") and len(lo_[2]) == 1 and hi_[0] == "call" and hi_[1] == ("method", X, "get_higher_bits") and \
                             len(hi_[2]) == 1 and same_integer(lo_[2][0], Hc[0]) and same_integer(hi_[2][0], ("op", "Sub", lx, Hc[0])):
                         H = Hc + [lo_[2][0]]
+            if H is None and name == "half_bits" and rt is not None and rt[0] == "tuple" and len(rt[1]) == 2:
+                # the padding variant may delegate the split to the non-padding one (whose split is judged on its own) and only equalise
+                D = ("call", ("fn", "half_bits_not_padding"), (x0,), ())
+                if rt[1] == (("proj", D, 0), ("proj", D, 1)):
+                    H = [("call", ("fn", "len"), (("proj", D, 1),), ())]
             if H is None:
                 okh = False
                 continue
